@@ -835,7 +835,7 @@ def standin_fmt_literal_forms(tier, seed):
              '(each of the 18 binary operators alone, under `not`, parenthesised%s)'
              % (len(lits), len(ctxs), len(INTS + FLOATS), len(NUM_CONTEXTS), len(fields), len(fctxs), nops,
                 ', and every pair as `a o1 b o2 c`, `(a o1 b) o2 c`, `a o1 (b o2 c)`' if tier == 'thorough' else ''))
-    skipped = [k['tag'] for k in KNOWN if k['tag'] != 'blank_comment']
+    skipped = [k['tag'] for k in KNOWN if k['tag'] not in ('blank_comment', 'indented_comment_group')]      # no comments in this family
     if skipped:
         bound += '; without the KNOWN forms ' + ', '.join(skipped)
     return check_family('fmt_literal_forms', bound, cases, generated=True)
